@@ -83,8 +83,28 @@ BigRowOk(ex, row) ==
     IF ex.n < 1 THEN row[2] = 0
     ELSE row[2] = 1 /\ Close(row[3], row[4], ex.med)
 
+\* perm[e] = <<some, num, res, adjusted = tainted, orbit>>: the selection-adjusted p under a calibration whose analytic component
+\* is 1, i.e. the permutation component: (number of distinct orderings y of the sample whose selected split - Pettitt's
+\* first maximum - has an exact Mann-Whitney p <= that of the observed ordering) / (number of distinct orderings), never below
+\* the observed split's own p.  num = round(adjusted * orbit); the code divides by a weight of 1 - 1e-10.
+Orderings(x) == { [i \in 1..Len(x) |-> x[p[i]]] : p \in Permutations(1..Len(x)) }
+SelP(y) == LET t == Pet(y).index IN <<PNum(y, t), PTotal(y, t)>>
+PermExp(x) ==
+    LET o == SelP(x)
+        os == Orderings(x)
+    IN [orbit |-> Cardinality(os), obs |-> o,
+        extreme |-> Cardinality({ y \in os : LET q == SelP(y) IN q[1] * o[2] <= o[1] * q[2] })]
+PermRowOk(pe, row) ==
+    /\ row[1] = 1 /\ row[5] = pe.orbit
+    /\ LET c == pe.extreme * pe.obs[2] - pe.obs[1] * pe.orbit IN       \* sign of extreme/orbit - tainted
+       /\ c > 0 => row[2] = pe.extreme /\ Abs(row[3]) <= 200 * pe.extreme
+       /\ c < 0 => row[4] = 1
+       /\ c = 0 => row[4] = 1 \/ (row[2] = pe.extreme /\ Abs(row[3]) <= 200 * pe.extreme)
+
 SeqOk(r) ==
     LET ex == SeqExp(r.x) IN
+    /\ ("perm" \in DOMAIN r /\ Len(r.perm) > 0) =>
+           LET pe == PermExp(r.x) IN \A e \in DOMAIN r.perm : PermRowOk(pe, r.perm[e])
     /\ \A e \in DOMAIN r.rank : RankRowOk(ex, r.rank[e])
     /\ \A e \in DOMAIN r.pp : PRowOk(ex, r.pp[e]) /\ r.pp[e] = r.pp[1]     \* rank-based: identical under every embedding
     /\ \A e \in DOMAIN r.aff : AffRowOk(ex, r.aff[e])
